@@ -344,4 +344,5 @@ def main(tier):
         pass
     import bounds
     bounds.check(rep, {'crc', 'crc_copy', 'adler'}, 'CRC', 30)
+    bounds.check_len_width(rep, {'crc', 'crc_copy', 'adler'}, 'CRC', 31)
     return rep.finish()
